@@ -23,7 +23,7 @@ from OpenPinch.classes.stream_collection import StreamCollection
 from OpenPinch.lib.enums import TargetType
 from pvc.engine import Obligation, split
 from pvc.npshim import NP as npx
-from pvc.sym import And, Implies, Not, Or, smax, smin
+from pvc.sym import And, Implies, Not, Or, SymReal, smax, smin
 
 from . import C01
 from .shared import COLD, HOT, PT, tol
@@ -31,7 +31,8 @@ from .shared import COLD, HOT, PT, tol
 LEVEL = "exploration"
 LEVEL_TEXT = ("Bounded symbolic execution of the real summation, site-utility-cascade, matching, read-out and serialisation functions "
               "(1..3 zones, 0..2 utilities per side, all duties and targets symbolic; loops unrolled to those sizes) plus the C01 slice for the "
-              "direct-integration record; the composition 'sum of balanced records is balanced' is a linear lemma checked by z3. Bounded in the "
+              "direct-integration record; the composition 'sum of balanced records is balanced' is a linear lemma checked by z3. The summation over sub-zones is ALSO "
+              "proved for any number of zones (C02.tz.sum.u: loop cut with an inductive invariant over the running frame of the real function); everything else is bounded in the "
               "number of zones and utilities.")
 ASSUMPTIONS = ["utility levels used in the summation / matching obligations are concrete and distinct (their order is fixed by C03's sorting contract)",
                "GAP: utility levels are rows of the site table (they are: the site grid is built from the net streams AND the utility streams)"]
@@ -112,6 +113,112 @@ def ob_tz_sum(h):
         tv["heat_recovery_target"] == tot_hot - tv["cold_utility_target"],
         tv["hot_utility_target"] >= 0, tv["cold_utility_target"] >= 0, tv["heat_recovery_target"] >= 0,
         sum([u.heat_flow for u in res["hot_utilities"]], 0.0) - sum([u.heat_flow for u in res["cold_utilities"]], 0.0) == tot_net)))
+
+
+def ob_tz_sum_u(h):
+    """ADDITIVE for ANY number of sub-zones: the loop of _sum_subzone_targets is cut with the inductive invariant
+
+        INV(i):  Qh = S_Qh(i), Qc = S_Qc(i), Qr = S_Qr(i), cost = S_cost(i),  every summed utility j: duty = S_hu_j(i) (S_cu_j(i)),
+                 i >= 1  =>  CP_j * span_j = duty_j,      num_units = area = 0          (S_x(0) = 0, S_x(i+1) = S_x(i) + x(i): the spec sums)
+
+    over the running frame of the real function (pvc/loopcut.py: base, preservation by one generic iteration, frame; exit at a symbolic n).  The
+    post-state clauses are then stated at n: the record is the spec sum over all n zones.  Utilities per side stay concrete (0..2)."""
+    import z3
+    from pvc.loopcut import POISON, CutSeq
+    from pvc.sym import SymBool, SymInt
+    nh = h.choice("hot_utilities", [0, 1, 2])
+    nc = h.choice("cold_utilities", [0, 1, 2])
+    n = SymInt(z3.Int("n_zones"))
+    h.assume(n >= 0)
+    I, R = z3.IntSort(), z3.RealSort()
+    fields = ["Qh", "Qc", "Qr", "cost"] + [f"hu{j}" for j in range(nh)] + [f"cu{j}" for j in range(nc)]
+    q = {k: z3.Function(f"zone_{k}", I, R) for k in fields}          # the i-th zone's record value
+    S = {k: z3.Function(f"sum_{k}", I, R) for k in fields}           # spec sum of the first i zones
+    for k in fields:
+        h.ctx.add_axiom(S[k](z3.IntVal(0)) == 0)
+
+    def zi(i):
+        return i.z if isinstance(i, SymInt) else z3.IntVal(i)
+
+    def unfold(i):          # S(i+1) = S(i) + q(i), instantiated at the index terms the proof touches
+        for k in fields:
+            h.ctx.add_axiom(S[k](zi(i) + 1) == S[k](zi(i)) + q[k](zi(i)))
+
+    def elem(i):
+        unfold(i)
+        for j in range(nh):
+            h.ctx.add_axiom(q[f"hu{j}"](zi(i)) >= 0)
+        for j in range(nc):
+            h.ctx.add_axiom(q[f"cu{j}"](zi(i)) >= 0)
+        hu = _coll([_util(f"HU{j}", *HOT_LEVELS[j], SymReal(q[f"hu{j}"](zi(i)))) for j in range(nh)])
+        cu = _coll([_util(f"CU{j}", *COLD_LEVELS[j], SymReal(q[f"cu{j}"](zi(i)))) for j in range(nc)])
+        t = SimpleNamespace(hot_utility_target=SymReal(q["Qh"](zi(i))), cold_utility_target=SymReal(q["Qc"](zi(i))), heat_recovery_target=SymReal(q["Qr"](zi(i))),
+                            utility_cost=SymReal(q["cost"](zi(i))), hot_utilities=hu, cold_utilities=cu, num_units=0, area=0.0)
+        made.extend([hu, cu])
+        return SimpleNamespace(name="Zi", targets={f"Zi/{DI}": t})
+
+    made = []
+
+    def utils(L):
+        return list(L["hot_utilities"]._streams.values()), list(L["cold_utilities"]._streams.values())
+
+    def inv(i, L):
+        z = zi(i)
+        hus, cus = utils(L)
+        out = [("Qh_is_spec_sum", h.eq(L["hot_utility_target"], SymReal(S["Qh"](z)))), ("Qc_is_spec_sum", h.eq(L["cold_utility_target"], SymReal(S["Qc"](z)))),
+               ("Qr_is_spec_sum", h.eq(L["heat_recovery_target"], SymReal(S["Qr"](z)))), ("cost_is_spec_sum", h.eq(L["utility_cost"], SymReal(S["cost"](z)))),
+               ("no_area_or_units_accumulated", And(h.eq(L["area"], 0.0), h.eq(L["num_units"], 0.0)))]
+        for side, us in (("hu", hus), ("cu", cus)):
+            for j, u in enumerate(us):
+                out.append(("each_utility_duty_is_spec_sum", h.eq(u._heat_flow, SymReal(S[f"{side}{j}"](z)))))
+                cp_ok = h.eq(u._CP * (u._t_max - u._t_min), u._heat_flow)
+                out.append(("utility_heat_capacity_goes_with_its_duty_after_the_first_zone", cp_ok if not isinstance(i, SymInt) and i >= 1 else
+                            (True if not isinstance(i, SymInt) else Implies(SymBool(z >= 1), cp_ok))))
+        return out
+
+    HEAP = ("_heat_flow", "_CP", "_RCP_prod", "_ut_cost")
+
+    def havoc(i, L):
+        hus, cus = utils(L)
+        for u in hus + cus:
+            for a in HEAP:
+                setattr(u, a, h.fresh_real(a))
+        new = {k: h.fresh_real(k) for k in ("hot_utility_target", "cold_utility_target", "heat_recovery_target", "utility_cost", "num_units", "area")}
+        new.update({"t": POISON, "j": POISON})
+        return new
+
+    def modifies(L):
+        hus, cus = utils(L)
+        # + the lazily refreshed sort caches of the collections the body indexes (its own two and the generic zone's two)
+        caches = [(c, a) for c in [L["hot_utilities"], L["cold_utilities"]] + made for a in ("_sorted_cache", "_needs_sort")]
+        return [(u, a) for u in hus + cus for a in HEAP] + caches
+
+    added = {}
+    seq = CutSeq(h, "zones", n, elem, inv, havoc, modifies)
+    zone = SimpleNamespace(
+        name="Site", subzones=SimpleNamespace(values=lambda: seq),
+        hot_utilities=_coll([_util(f"HU{j}", *HOT_LEVELS[j], 7.0) for j in range(nh)]),
+        cold_utilities=_coll([_util(f"CU{j}", *COLD_LEVELS[j], 9.0) for j in range(nc)]),
+        targets={f"Site/{DI}": SimpleNamespace(heat_recovery_limit=h.real("site_limit"))},
+        add_target_from_results=lambda tid, res: added.__setitem__(tid, res),
+    )
+    ii._sum_subzone_targets(zone)
+    # ---- after the loop (only the exit case gets here): the record against the spec sums at n ------------------------------------------
+    res = added[TargetType.TZ.value]
+    tv = res["target_values"]
+    N = n.z
+    h.check("Qh_is_sum_of_all_zones", h.eq(tv["hot_utility_target"], SymReal(S["Qh"](N))))
+    h.check("Qc_is_sum_of_all_zones", h.eq(tv["cold_utility_target"], SymReal(S["Qc"](N))))
+    h.check("Qr_is_sum_of_all_zones", h.eq(tv["heat_recovery_target"], SymReal(S["Qr"](N))))
+    for side, nn, levels in (("hu", nh, HOT_LEVELS), ("cu", nc, COLD_LEVELS)):
+        coll = list(res["hot_utilities" if side == "hu" else "cold_utilities"]._streams.values())      # insertion order = the order of the spec sums
+        for j in range(nn):
+            u = coll[j]
+            h.check("each_utility_is_sum_of_all_zones", h.eq(u.heat_flow, SymReal(S[f"{side}{j}"](N))))
+            h.check("summed_utility_keeps_its_level", u.t_supply == levels[j][0])
+            h.check("summed_utility_heat_capacity_goes_with_its_duty", Implies(SymBool(N >= 1), h.eq(u.CP * (u.t_max - u.t_min), u.heat_flow)))
+    for j in range(nh):
+        h.check("zone_utilities_untouched", zone.hot_utilities[j].heat_flow == 7.0)
 
 
 def ob_ts_cascade(h):
@@ -265,6 +372,10 @@ def obligations():
         Obligation("C02.tz.sum.b", ob_tz_sum, kind="bounded", bound="1..3 zones x 0..2 hot x 0..2 cold utilities, every target and duty symbolic (loops unrolled)",
                    functions=[ii._sum_subzone_targets, ii._reset_utility_heat_flows, ii._set_sites_targets, Stream.set_heat_flow], max_paths=100000,
                    doc="value-by-value and utility-by-utility sums; sum of balanced records is balanced"),
+        Obligation("C02.tz.sum.u", ob_tz_sum_u, kind="proof", functions=[ii._sum_subzone_targets, ii._reset_utility_heat_flows, ii._set_sites_targets, Stream.set_heat_flow], max_paths=100000,
+                   expect=("zones.base.Qh_is_spec_sum", "zones.preserved.Qh_is_spec_sum", "zones.frame", "Qh_is_sum_of_all_zones"),
+                   bound="ANY number of sub-zones (loop cut with an inductive invariant over the running frame of the real function); 0..2 utilities per side",
+                   doc="ADDITIVE for every zone count: base / preservation / frame of the summation loop, record = spec sum at n"),
         Obligation("C02.ts.cascade.b", ob_ts_cascade, kind="bounded", bound="0..2 hot and 0..2 cold utilities at distinct levels, duties symbolic",
                    functions=[ii._get_site_utility_heat_cascade], max_paths=100000, doc="TS end values against utility duties; non-negativity; upper bounds"),
         Obligation("C02.match.b", ob_match, kind="bounded", bound="1..2 hot x 1..2 cold utilities, with and without a matching level, duties symbolic",
